@@ -169,8 +169,20 @@ def check_pair_casts(chk, prog, fns):
     for f in fns:
         if f.body is None or f.cfg is None:
             continue
-        generic = {p["d"] for p in f.params if p.get("tp") and not re.search(r"objpair", (p.get("t") or "") + (p.get("tc") or ""))}
-        generic |= {d for d, v in f.vardecls.items() if v.get("tp") and not re.search(r"objpair", (v.get("t") or "") + (v.get("tc") or ""))}
+        # values that come from the caller: generic object parameters and locals that only ever copy one (what a function loads
+        # from the container's own storage is a pair by the container's invariant and is not in question here)
+        generic = {p["d"] for p in f.params[1:] if p.get("tp") and not re.search(r"objpair", (p.get("t") or "") + (p.get("tc") or ""))}
+        ch_ = True
+        while ch_:
+            ch_ = False
+            for d, v in f.vardecls.items():
+                if d in generic or not v.get("tp") or re.search(r"objpair", (v.get("t") or "") + (v.get("tc") or "")):
+                    continue
+                defs_ = [v["init"]] if v.get("init") is not None else []
+                defs_ += [x["ch"][1] for x in walk(f.body) if x.get("k") == "assign" and x.get("op") == "=" and (X.strip(x["ch"][0]) or {}).get("d") == d]
+                if defs_ and all((X.strip(e_) or {}).get("k") == "ref" and X.strip(e_).get("d") in generic for e_ in defs_):
+                    generic.add(d)
+                    ch_ = True
         reads = []
         for x in walk(f.body):
             if x.get("k") == "member" and x.get("arrow") and x.get("n") in ("key", "value") and "objpair" in (x.get("rec") or ""):
@@ -263,7 +275,7 @@ def run(tier="quick"):
     chk.count("bisection_functions", nqf, floor=1)
     nund += nundq
     check_pair_comp(chk, prog)
-    chk.count("pair_field_reads", check_pair_casts(chk, prog, fns), floor=4)
+    chk.count("pair_field_reads", check_pair_casts(chk, prog, fns), floor=3)
     C02.init_diag(chk, prog, UNITS, only=names)
     chk.count("map_functions", len(fns), floor=27)
     chk.count("set_functions", ncp, floor=3)
